@@ -78,6 +78,9 @@ func (a *Analyzer) Summary(fn *ssa.Function) *summary {
 			break
 		}
 	}
+	if s.resIdx < 0 && res.Len() > 1 && isBoolType(res.At(res.Len()-1).Type()) {
+		s.resIdx, s.resKind = res.Len()-1, "bool" // (value, ok) idiom
+	}
 	if s.resIdx < 0 && res.Len() > 0 && isBoolType(res.At(0).Type()) {
 		s.resIdx, s.resKind = 0, "bool"
 	}
